@@ -658,7 +658,7 @@ class Replayer:
                 pr = pm.get(er[key])
                 if pr is None:
                     return
-                masked.append([CMP.UNDEF if ev is CMP.UNDEF else pv for ev, pv in zip(er, pr)])
+                masked.append([CMP.UNDEF if ev is CMP.UNDEF else pv for ev, pv in zip(er, pr)])   # ANY cells stay: compared with tolerance
             res = CMP.compare_aligned(masked, CMP.frame_rows(ds), tys, key)
             if res is not None:
                 self.fail(node, beh, k, "both", "cross-" + res[0], res[1])
